@@ -26,7 +26,9 @@ RULE = ("seeded pools of 3-8 distinctly named connected motifs (random connected
         "and histories of 10-40 evaluations (motif, focal, operand kind, heterogeneous u) on ONE evaluator that revisit "
         "and interleave motifs; operand kinds float / exact rationals on a 1e6 grid / polynomial symbols; faults: operand "
         "raising at the k-th arithmetic operation, the motif graph's neighbors() raising at the k-th call (lands inside "
-        "the structural cache filling), a vertex without its u value; non-trivial = history has >= 2 "
+        "the structural cache filling), a vertex without its u value; every 5th run: two or three evaluations OVERLAPPING IN TIME on "
+        "the shared evaluator - real threads parked at every operand operation, the interleaving chosen by the seeded scheduler "
+        "(uniform / sticky / mixed), or a nested evaluation started from inside an operand operation; non-trivial = history has >= 2 "
         "evaluations of which one revisits a (motif, focal) pair; distinct = distinct execution digests")
 ASSUMPTIONS = ["reference = brute force over all 2^|E| edge subsets, organised as integer counts (pure function of motif and focal)",
                "Exact evaluations establish the polynomial identity with probability >= 1 - deg/1e6 each (Schwartz-Zippel); "
@@ -34,6 +36,120 @@ ASSUMPTIONS = ["reference = brute force over all 2^|E| edge subsets, organised a
                "float evaluations compared to 1e-9 (absolute + relative)"]
 REAL = ["gcmpy.message_passing.equations.automated_equation.AutomatedEquation (shared object, real caches)", "networkx"]
 STUB = ["numeric operands (Exact / Poly / faulting wrappers)", "no RNG is consumed by this code path"]
+
+import threading
+
+
+_BATONS = {}        # thread ident -> Baton of the worker thread currently registered under it
+
+
+class Baton:
+    """Hand-over object of ONE worker thread."""
+
+    def __init__(self):
+        self.go = threading.Semaphore(0)
+        self.back = threading.Semaphore(0)
+        self.done = False
+        self.result = None
+        self.error = None
+        self.ops = 0
+
+
+class YieldPoint:
+    """Counter handed to Exact operands: every arithmetic operation is a pre-emption point.  The thread that
+    EXECUTES the operation parks on ITS OWN baton - not on the one of whoever created the operand: a library that
+    leaks one evaluation's operands into another (e.g. through a cache) makes thread B compute with thread A's
+    operand objects, and parking B on A's baton would deadlock the scheduler instead of exposing the leak."""
+
+    fail_at = None      # OpCounter compatibility
+
+    def __init__(self):
+        self.n = 0
+
+    def tick(self):
+        self.n += 1
+        b = _BATONS.get(threading.get_ident())
+        if b is None:
+            return              # not a scheduled worker (main thread: warm-up, references)
+        b.ops += 1
+        b.back.release()        # parked: tell the scheduler
+        b.go.acquire()          # wait for the next grant
+
+
+class WorkerStuck(Exception):
+    pass
+
+
+def run_interleaved(fns, decide, max_steps=200000, step_timeout=60.0):
+    """fns: list of callables.  Real threads, exactly one running at any time; `decide(k)` (the seeded scheduler)
+    picks which of the k runnable threads gets the next step.  Returns (batons, context switches)."""
+    batons = [Baton() for _ in fns]
+    threads = []
+    for b, fn in zip(batons, fns):
+        def body(b=b, fn=fn):
+            _BATONS[threading.get_ident()] = b
+            b.go.acquire()
+            try:
+                b.result = fn()
+            except BaseException as e:     # reported by the caller
+                b.error = e
+            finally:
+                b.done = True
+                _BATONS.pop(threading.get_ident(), None)
+                b.back.release()
+        t = threading.Thread(target=body, daemon=True)
+        t.start()
+        threads.append(t)
+    switches, last, steps = 0, None, 0
+    try:
+        while True:
+            runnable = [i for i, b in enumerate(batons) if not b.done]
+            if not runnable:
+                break
+            i = runnable[decide(len(runnable)) if steps < max_steps else 0]
+            if last is not None and i != last:
+                switches += 1
+            last = i
+            batons[i].go.release()
+            if not batons[i].back.acquire(timeout=step_timeout):
+                raise WorkerStuck(f"worker {i} neither reached its next operand operation nor finished within {step_timeout:.0f}s")
+            steps += 1
+    finally:
+        for b in batons:                    # never leave a parked thread behind
+            if not b.done:
+                for _ in range(1000000):
+                    b.go.release()
+                    if b.back.acquire(timeout=0.5) and b.done:
+                        break
+                    if b.done:
+                        break
+        for t in threads:
+            t.join(timeout=5)
+    return batons, switches
+
+
+class NestedCall:
+    """Counter handed to Exact operands of an outer evaluation: at its k-th arithmetic operation it runs ANOTHER
+    evaluation on the same evaluator (re-entrancy in one thread), then lets the outer one continue."""
+
+    def __init__(self, at, inner):
+        self.n = 0
+        self.at = at
+        self.inner = inner
+        self.inner_result = None
+        self.inner_error = None
+        self.fired = False
+        self.fail_at = None
+
+    def tick(self):
+        if self.n == self.at and not self.fired:
+            self.fired = True
+            try:
+                self.inner_result = self.inner()
+            except Exception as e:
+                self.inner_error = e
+        self.n += 1
+
 
 class FaultyGraph(nx.Graph):
     """Duck-typed graph operand: neighbors() fails at the k-th call (counter shared through the graph attribute
@@ -102,7 +218,106 @@ def gen_operands(prng, verts, kind):
     return {"kind": "poly"}
 
 
+def gen_overlap(prng, tier, index):
+    npool = prng.randrange(2, 5)
+    names = prng.sample(NAMES, npool)
+    motifs = [{"name": names[i], "edges": gen_motif(prng, 7)} for i in range(npool)]
+    evals = []
+    for _ in range(prng.choice((2, 2, 3))):
+        mi = prng.randrange(npool) if prng.random() < 0.6 or not evals else evals[0]["m"]
+        verts = sorted({v for e in motifs[mi]["edges"] for v in e})
+        ev = {"m": mi, "focal": prng.choice(verts)}
+        ev.update(gen_operands(prng, verts, "exact"))
+        evals.append(ev)
+    mode = prng.choice(("threads", "threads", "nested"))
+    sc = {"variant": "faults", "kind": "overlap", "mode": mode, "motifs": motifs, "evals": evals, "faults": [],
+          "warm": prng.random() < 0.5,
+          "policy": prng.choice(({}, {"int": "sticky"}, {"int": "mix", "p": 0.3}, {"int": "mix", "p": 0.7}, {"int": "max"}))}
+    if mode == "nested":
+        sc["at"] = prng.randrange(0, 60)
+    return sc
+
+
+def execute_overlap(sc, ctx):
+    """Evaluations that OVERLAP IN TIME on one shared evaluator (the interleaving is decided by the seeded scheduler,
+    or a nested call is placed at a chosen operand operation); every result must equal the brute-force expectation."""
+    P = "C15"
+    AE = AutomatedEquation()
+    src = ctx.source("sched", sc.get("policy"))
+    prepared = []
+    for ev in sc["evals"]:
+        m = sc["motifs"][ev["m"]]
+        edges = [tuple(e) for e in m["edges"]]
+        verts = sorted({v for e in edges for v in e})
+        focal = ev["focal"] if ev["focal"] in verts else verts[0]
+        prepared.append((m, edges, verts, focal, ev))
+    if sc.get("warm"):
+        # structural caches already filled by an earlier sequential evaluation (the common situation)
+        for m, edges, verts, focal, ev in prepared:
+            phi, u = operands(ev, verts)
+            H = nx.Graph(name=m["name"]); H.add_edges_from(edges); nx.set_node_attributes(H, u, "u")
+            ctx.call(src, AE.automated_equation, H, phi, focal, label="warm-up")
+
+    def make(ev, m, edges, verts, focal, counter):
+        phi, u = operands(ev, verts, counter)
+        H = nx.Graph(name=m["name"]); H.add_edges_from(edges); nx.set_node_attributes(H, u, "u")
+        return lambda: AE.automated_equation(H, phi, focal)
+
+    results = []
+    if sc["mode"] == "nested":
+        (m0, e0, v0, f0, ev0), (m1, e1, v1, f1, ev1) = prepared[0], prepared[1]
+        inner = make(ev1, m1, e1, v1, f1, None)
+        nc = NestedCall(sc.get("at", 0), inner)
+        outer = make(ev0, m0, e0, v0, f0, nc)
+        st, val = ctx.call(src, outer, label="outer[nested]")
+        if st != "ok":
+            ctx.violate(f"{P}.raised", f"evaluation with a nested evaluation on the same evaluator: {st} {describe_exc(val) if st == 'raised' else ''}")
+            return
+        if nc.inner_error is not None:
+            ctx.violate(f"{P}.raised", f"nested evaluation raised {describe_exc(nc.inner_error)}")
+            return
+        results.append((prepared[0], val))
+        if nc.fired:
+            ctx.fault("nested_call")
+            results.append((prepared[1], nc.inner_result))
+        where = f"with a nested evaluation of motif {m1['name']!r} started at its arithmetic operation {sc.get('at', 0)}"
+    else:
+        fns = []
+        for (m, edges, verts, focal, ev) in prepared:
+            fns.append(make(ev, m, edges, verts, focal, YieldPoint()))
+        jobs = fns
+        start = len(src.log)
+        src.begin_op(budget=None)
+        try:
+            batons, switches = run_interleaved(fns, lambda k: src.next_int(k, "sched") if k > 1 else 0)
+        except WorkerStuck as e:
+            ctx.violate(f"{P}.raised", f"interleaved evaluations on one evaluator: {e}")
+            return
+        ctx.event("interleaved", src.log[start:])
+        ctx.operations += len(fns)
+        ctx.probe("context_switches", switches)
+        if switches:
+            ctx.fault("interleaved_evaluations")
+        for b, pr in zip(batons, prepared):
+            if b.error is not None:
+                ctx.violate(f"{P}.raised", f"evaluation interleaved with another on the same evaluator raised {describe_exc(b.error)}")
+                return
+            results.append((pr, b.result))
+        where = f"interleaved with {len(jobs) - 1} other evaluation(s) on the same evaluator ({switches} context switches at operand operations)"
+    for (m, edges, verts, focal, ev), val in results:
+        ctx.check(f"{P}.interleaved")
+        ref = reference(edges, focal, ev, verts)
+        if not same(val, ref, ev["kind"]):
+            ctx.violate(f"{P}.interleaved", f"value {show(val)} of motif {m['name']!r} focal {focal} differs from the exact expectation "
+                                            f"{show(ref)} when evaluated {where}")
+            return
+        ctx.result(m["name"], focal, show(val))
+    ctx.nt = True
+
+
 def generate(prng, tier, index):
+    if index % 5 == 4:
+        return gen_overlap(prng, tier, index)
     big = tier == "thorough"
     max_edges = 11 if big and prng.random() < 0.3 else (9 if prng.random() < 0.3 else 7)
     npool = prng.randrange(3, 9)
@@ -184,6 +399,8 @@ def show(x):
 
 
 def execute(sc, ctx):
+    if sc.get("kind") == "overlap":
+        return execute_overlap(sc, ctx)
     P = "C15"
     AE = AutomatedEquation()
     src = ctx.source("none")
@@ -270,6 +487,14 @@ def nontrivial(sc, ctx):
 
 
 def shrink(sc):
+    if sc.get("kind") == "overlap":
+        if sc.get("warm"):
+            yield dict(sc, warm=False)
+        if len(sc["evals"]) > 2:
+            yield dict(sc, evals=sc["evals"][:2])
+        if sc.get("policy"):
+            yield dict(sc, policy={})
+        return
     evs = sc["evals"]
     n = len(evs)
     if sc.get("faults"):
